@@ -20,7 +20,10 @@ RULE = (
     "iteration-engine conversion; non-trivial = tree has at least one logical connective; distinct = distinct trees"
 )
 
+FN_CMP = ("lt", ("add", R("a"), L(1)), R("b"))  # comparison whose first argument is itself a function
+
 ATOMS = [
+    FN_CMP,
     ("plit", True),
     ("plit", False),
     ("pref", "p"),
@@ -29,6 +32,21 @@ ATOMS = [
     ("in_range", R("a"), (0, 3, 2)),
     ("in_seq", R("a"), (R("b"), L(2))),
 ]
+
+
+def subexpressions(e):
+    """Proper sub-nodes of a mini-AST node that are expressions/predicates themselves."""
+    out = []
+    for x in e[1:]:
+        if isinstance(x, tuple) and x and isinstance(x[0], str) and x[0] not in ("iteration", "sql"):
+            out.append(x)
+            out.extend(subexpressions(x))
+        elif isinstance(x, tuple):
+            for y in x:
+                if isinstance(y, tuple) and y and isinstance(y[0], str):
+                    out.append(y)
+                    out.extend(subexpressions(y))
+    return out
 
 
 def logic(pool, max_arity, require=None):
@@ -95,6 +113,15 @@ def _work(chunk):
         req = A.names(lib.columns_required)
         if req != free:
             bad("columns_required", f"declared {sorted(req)} but the expression reads {sorted(free)}")
+        # every shared sub-expression must still declare exactly its own columns after the parent was inspected
+        for sub in subexpressions(e):
+            sreq = A.names(A.to_lib(sub).columns_required)
+            if sreq != A.free_cols(sub):
+                bad(
+                    "subexpression-columns_required",
+                    f"after inspecting the parent, shared sub-expression {A.fmt(sub)} declares {sorted(sreq)} but reads {sorted(A.free_cols(sub))}",
+                )
+                break
         if fam == "scalar":
             try:
                 fn = ie.convert_column_expression(lib)
